@@ -133,9 +133,11 @@ class Item:
         self.tag = tag
         self.bad = bad  # unorderable: `<` raises TypeError
 
+    BAD_EXC = TypeError  # what comparing an unorderable item raises (a harness may choose ValueError)
+
     def _chk(self, other):
         if self.bad or getattr(other, "bad", False):
-            raise TypeError("unorderable Item")
+            raise Item.BAD_EXC("unorderable Item")
 
     def __lt__(self, other):
         if not isinstance(other, Item):
